@@ -7,7 +7,8 @@
 //          so the verdict does not depend on when the test runs; nominalNowNs is for the model)
 //   near <loc> <tok> <offSec> <ttlNs> <key> <vtok> <vttlNs> <vkey> <suffix> <nominalNowNs>
 //         sign with expiry = real now + offSec, append suffix, verify with vtok/vttl/vkey
-//                                                            -> verdict hex(signed) exp now
+//                                                            -> verdict hex(signed) exp now t0ns t1ns
+//         (t0ns/t1ns: clock before signing / after verifying; offSec 0 = "at now", see below)
 //   manifest <text> <tok> <expUnix> <ttlNs> <key>            -> hex(SignManifest(...))
 package arvados
 
@@ -77,12 +78,29 @@ func verifC07Case(line string) (out string) {
 		return verifC07Verdict(VerifySignature(verifC07Hex(f[1]), verifC07Hex(f[2]),
 			time.Duration(verifC07Int(f[3])), []byte(verifC07Hex(f[4]))))
 	case f[0] == "near" && len(f) == 11:
-		now := time.Now().Unix()
-		exp := now + verifC07Int(f[3])
-		signed := SignLocator(verifC07Hex(f[1]), verifC07Hex(f[2]), time.Unix(exp, 0),
-			time.Duration(verifC07Int(f[4])), []byte(verifC07Hex(f[5]))) + verifC07Hex(f[9])
-		v := VerifySignature(signed, verifC07Hex(f[6]), time.Duration(verifC07Int(f[7])), []byte(verifC07Hex(f[8])))
-		return fmt.Sprintf("%s %s %d %d", verifC07Verdict(v), verifC07Enc(signed), exp, now)
+		// offSec == 0 ("at now"): the expiry is the whole second that has already begun, so the
+		// expiry instant lies strictly before every later clock reading and the unchanged code
+		// answers "expired" whenever it runs. To observe the code's behaviour *inside* that
+		// second the attempt is repeated until sign+verify completed within the second.
+		off := verifC07Int(f[3])
+		var out string
+		for attempt := 0; attempt < 1000; attempt++ {
+			t0 := time.Now()
+			if t0.Nanosecond() == 0 {
+				continue
+			}
+			now := t0.Unix()
+			exp := now + off
+			signed := SignLocator(verifC07Hex(f[1]), verifC07Hex(f[2]), time.Unix(exp, 0),
+				time.Duration(verifC07Int(f[4])), []byte(verifC07Hex(f[5]))) + verifC07Hex(f[9])
+			v := VerifySignature(signed, verifC07Hex(f[6]), time.Duration(verifC07Int(f[7])), []byte(verifC07Hex(f[8])))
+			t1 := time.Now()
+			out = fmt.Sprintf("%s %s %d %d %d %d", verifC07Verdict(v), verifC07Enc(signed), exp, now, t0.UnixNano(), t1.UnixNano())
+			if off != 0 || t1.Unix() == now {
+				break
+			}
+		}
+		return out
 	case f[0] == "manifest" && len(f) == 6:
 		return verifC07Enc(SignManifest(verifC07Hex(f[1]), verifC07Hex(f[2]), time.Unix(verifC07Int(f[3]), 0),
 			time.Duration(verifC07Int(f[4])), []byte(verifC07Hex(f[5]))))
